@@ -3,6 +3,7 @@ C03 — html_quote / &dtml-name; output is exactly the HTML-escaped value.
 Model: DTML/Quote.lean.
 -/
 import DTML.Quote
+import DTML.Lemmas.IBlock
 set_option linter.unusedVariables false
 namespace DTML.Props.C03
 open DTML.Quote
@@ -157,5 +158,17 @@ theorem escChar_cases (c : Char) :
 
 example : escape "a<b & 'c' \"d\">".toList = "a&lt;b &amp; &#x27;c&#x27; &quot;d&quot;&gt;".toList := by decide
 example : needsQuote "it's".toList = true := by decide
+
+/-! ### The simple dtml-var of the interpreter is the `'v'` branch of the source
+
+`GenRender.vBlockGen` is regenerated on every run by translating the `'v'` branch of `render_blocks_` in /repo
+(harness/trans_render.py): `t = md[t]` / `t(md)`, the `ustr` step, the decision `skip_html_quote == 0 and len(block) == 3`,
+the fast-path test character by character as the source has it, `html_quote(t, encoding=encoding)`.  It computes the
+model's `fetchVar`, which escapes every quoted value: the fast path of the source is sound because text without the
+tested characters is its own escaping (`fastpath_sound` above; here for the interpreter's `escChar`).  Removing a
+character from the test in the source makes this theorem false. -/
+theorem gen_simple_var_is_model (env : Render.Env) (fuel : Nat) (src : Render.Src) (hq : Bool) (st : Render.St) :
+    GenRender.vBlockGen env fuel src hq st = Render.fetchVar env (fuel + 2) src hq none st :=
+  Lemmas.IBlock.vBlock_eq env fuel src hq st
 
 end DTML.Props.C03
